@@ -5,24 +5,21 @@ import NV.C09.HookLemmas
 
 namespace NV.C09
 
-theorem CStep.of_inv {w w' : W} (h : Inv w → Inv w') (a : w.users.isSome = true → w'.users.isSome = true)
-    (m : w'.mode = w.mode) (c : w'.ctxDepth = w.ctxDepth) : CStep w w' := fun i => ⟨h i, ⟨a, m, c⟩⟩
-
 theorem mudlibConnect_cstep (S : Scripts) (w : W) : CStep w (mudlibConnect S w).1 := by
   unfold mudlibConnect
   simp only []
   split
-  · show CStep w (errorHandler _ _)
-    refine CStep.trans (Step.toC (Same.step ?_)) (Step.toC (errorHandler_step _ _))
-    exact ⟨rfl, rfl, rfl, rfl, rfl, rfl, rfl, rfl, rfl⟩
-  · exact Step.toC (Same.step ⟨rfl, rfl, rfl, rfl, rfl, rfl, rfl, rfl, rfl⟩)
+  · show CStep w (popCtx (errorHandler (emit (pushCtx _) (.xErr _)) _))
+    refine CStep.trans ?_ (Step.toC (Step.bracket (raise_step _ _)))
+    exact Step.toC (Same.step ⟨rfl, rfl, rfl, rfl, rfl, rfl, rfl, rfl, rfl, by trx⟩)
+  · exact Step.toC (Same.step ⟨rfl, rfl, rfl, rfl, rfl, rfl, rfl, rfl, rfl, by trx⟩)
   · split
-    · exact Step.toC (Same.step ⟨rfl, rfl, rfl, rfl, rfl, rfl, rfl, rfl, rfl⟩)
+    · exact Step.toC (Same.step ⟨rfl, rfl, rfl, rfl, rfl, rfl, rfl, rfl, rfl, by trx⟩)
     · rename_i id hid
       intro inv
       -- the state with the counters bumped and the event logged
       let w1 : W := { (emit { w with nConnect := w.nConnect + 1 } (.tConnect (w.nConnect + 1))) with nUser := w.nUser + 1 }
-      have s1 : Same w w1 := ⟨rfl, rfl, rfl, rfl, rfl, rfl, rfl, rfl, rfl⟩
+      have s1 : Same w w1 := ⟨rfl, rfl, rfl, rfl, rfl, rfl, rfl, rfl, rfl, by trx⟩
       obtain ⟨inv1, _⟩ := s1.step inv
       have hid1 : w1.inter .master = some id := hid
       have hl1 := inv1.live .master id hid1
@@ -36,7 +33,7 @@ theorem mudlibConnect_cstep (S : Scripts) (w : W) : CStep w (mudlibConnect S w).
         · rename_i hne
           exact absurd (inv1.inj o' .master id ho'' hid1) hne) inv2
       obtain ⟨inv4, r4⟩ := mapConn_step _ id (bindTo (.user (w.nUser + 1))) (fun _ => rfl) (fun _ h => h) inv3
-      refine ⟨inv4, ⟨?_, rfl, rfl⟩⟩
+      refine ⟨inv4, ⟨?_, rfl, rfl, TrExt.one rfl rfl⟩⟩
       intro hs
       have := r4.toCRel.alloc
       exact this hs
